@@ -42,7 +42,10 @@ META = {
                   "truthful ones and blames exactly the corrupted field.  Recorded from dask: every intermediate of seeded C36 pipelines "
                   "(2-5 row-wise operations on 4-12 row frames, <= 5 partitions incl. empty ones) and a menu of ~150 operations over a frame "
                   "with int/uint/float/bool/string/datetime/timedelta/categorical columns (elementwise, str/dt/cat accessors, reductions, "
-                  "cumulative, groupby-agg, merge/join/concat, sort/set_index/reset_index/drop_duplicates), alone and behind a first "
+                  "cumulative, groupby-agg, merge/join/concat, sort/set_index/reset_index/drop_duplicates) plus a family of ~110 operations whose "
+                  "result dtype depends on whether a missing value is inserted (shift by +-k and 0, diff, rolling, cumulative, ffill/bfill, "
+                  "align / binary operators / assign / where against another index, combine_first, concat(axis=1), outer joins, groupby "
+                  "shift/first/last) frame-wide on int+uint+bool+float+object+datetime columns and per column, alone and behind a first "
                   "row-wise step, on seeded partitionings; for each collection _meta, compute() and every partition computed through its own "
                   "key are described and TLC decides the invariant: kind, column names and order, dtype classes, index name, index dtype "
                   "class, partition count.",
@@ -502,6 +505,8 @@ def nan_site(opname):
         # aligned expression is evaluated on the operands' empty metas, where alignment inserts nothing)
         return "nan:alignment(other index)"
     base = head.split("(")[0]
+    if base == "join":
+        return "merge/join(unmatched rows)"
     if base in ("cumsum", "cumprod", "cummax", "cummin"):
         return "nan:cumulative:%s" % target
     method = base if base in ("shift", "diff") else head
@@ -512,6 +517,9 @@ def nan_site(opname):
 LIMITATIONS = ["Can only rolling dataframes with known divisions", "All NaN partition encountered", "Partition size is less than",
                "Not all divisions are known",
                "attempt to get arg",        # idxmin / idxmax of an EMPTY frame (two-step programs): pandas raises the same ValueError
+               "cannot reindex on an axis with duplicate labels",      # combine_first / align on duplicate labels: pandas raises the same
+               "Reindexing only valid with uniquely valued Index",       # concat(axis=1) / align on duplicate labels: pandas raises the same
+               "Unable to concatenate DataFrame with unknown division",  # concat(axis=1) documents that it needs known divisions
                "Encountered all NA values"]  # idxmin / idxmax with an all-NaN partition raise (a result question: C37), nothing to describe
 
 # call sites: menu entries that exercise ONE code path of dask share a site, so one root cause has one signature
